@@ -231,11 +231,19 @@ Theorem C12_read_dup_refused : forall acc text f, keys_nodup acc -> Forall class
 Proof. exact read_dup_refused. Qed.
 Print Assumptions C12_read_dup_refused.
 
-(* the hypothesis on comments, written out (pinned so that it cannot quietly become narrower): any text without
-   TAB, VT, FF, CR — the empty comment, a trailing line break, blank lines, leading spaces, `#` are inside *)
-Theorem C12_doc_hyp_spec : docb None = true /\ forall d, docb (Some d) = forallb (fun c => negb (mem_N c [9; 11; 12; 13])) d.
+(* the hypothesis on comments, written out (pinned so that it cannot quietly become narrower): NO character is excluded —
+   TAB, VT, FF, CR inside a line, runs of spaces, leading / trailing spaces, only-spaces lines, `#`, the empty comment, a
+   trailing line break, blank lines are all inside.  The one shape outside: a comment with a line (LF separates them) that
+   ENDS with CR — the reader would take that CR for a part of the line break.  (Round 5, fix "a comment keeps its tabs and
+   spaces through the Enigma format": before it the hypothesis excluded TAB, VT, FF and CR altogether, because the reader
+   split a comment line at every white-space character and joined the parts with one space.) *)
+Theorem C12_doc_hyp_spec : docb None = true /\ forall d, docb (Some d) = forallb (fun l => negb (ends_cr l)) (split_on cLF d).
 Proof. exact doc_hyp_spec. Qed.
 Print Assumptions C12_doc_hyp_spec.
+
+Theorem C12_ends_cr_spec : forall l, ends_cr l = true <-> exists p, l = p ++ [cCR].
+Proof. exact ends_cr_spec. Qed.
+Print Assumptions C12_ends_cr_spec.
 
 (* the comment layer of Th 1 in isolation, for every such comment at every indentation: one COMMENT line per
    `split('\n')` part (a trailing line break gives a last bare line, the empty comment exactly one), read back to
@@ -247,6 +255,28 @@ Theorem C12_comment_roundtrip : forall ind doc rest, docb doc = true -> stops in
   /\ comments_loop ind None (e_comments ind doc ++ rest) = Ok (doc, rest).
 Proof. exact comment_roundtrip. Qed.
 Print Assumptions C12_comment_roundtrip.
+
+(* the reader's half, no hypothesis: the text after `COMMENT` and ONE separator (any of the six Java white-space
+   characters) is the comment line character for character — nothing is split, trimmed, or cut at `#` *)
+Theorem C12_comment_line_verbatim : forall n w l, java_ws w = true ->
+  enigma_line (tabs n ++ s_COMMENT ++ w :: l) = Some (mkEline n s_COMMENT [l])
+  /\ forall doc, ins_comment doc (mkEline n s_COMMENT [l]) = Some (match doc with Some d => d ++ cLF :: l | None => l end).
+Proof. exact comment_line_verbatim. Qed.
+Print Assumptions C12_comment_line_verbatim.
+
+(* the writer's half of the one excluded shape: a set in which ANY comment (of a class, a field, a method, a parameter)
+   has a line ending in CR is refused by the stream writer and by the directory writer — an error, never a silent loss *)
+Theorem C12_unwritable_comment_refused : forall M c, keys_nodup M -> In c M -> class_docs_writable c = false ->
+  write_all M = Err /\ write_dir M = Err.
+Proof. exact unwritable_comment_refused. Qed.
+Print Assumptions C12_unwritable_comment_refused.
+
+Theorem C12_docs_writable_spec : forall c,
+  class_docs_writable c = true <->
+  docb (c_doc c) = true /\ (forall f, In f (c_fields c) -> docb (f_doc f) = true)
+  /\ (forall m, In m (c_methods c) -> docb (m_doc m) = true /\ forall p, In p (m_params m) -> docb (p_doc p) = true).
+Proof. exact class_docs_writable_spec. Qed.
+Print Assumptions C12_docs_writable_spec.
 
 (* Th 8: the directory form.  Inside the hypotheses of the round trip the directory hypothesis is
    nothing but the file system's own limits (no NUL, path components of at most 255 bytes) … *)
@@ -293,7 +323,8 @@ Print Assumptions C12_read_path_spec.
 
 (* non-vacuity of the round-4 theorems: structural decoding of a nested text computed; duplicate (flat and
    nested), unknown tag, indentation jump refused; file-system limits at 247/248 bytes and NUL; `..` and
-   absolute file names refused; missing path, single file, invalid UTF-8 *)
+   absolute file names refused; missing path, single file, invalid UTF-8; a comment with TAB / VT / FF / inner CR / runs of
+   spaces round-trips (computed), a comment line ending in CR is refused by both writers *)
 Theorem C12_examples2 : nonvacuous2.
 Proof. exact nonvacuous2_holds. Qed.
 Print Assumptions C12_examples2.
